@@ -202,3 +202,67 @@ Theorem scan_reads_only_reachable_names : forall jsc_len enum_len banned files f
   scan_project jsc_len enum_len files' banned fuel (init_state root content).
 Proof. exact scan_root_fs_confined_lemma. Qed.
 Print Assumptions scan_reads_only_reachable_names.
+
+(* ---- JSIGHT inside an included file, and the balance of the scanner stack
+        (proofs/CoreMoreProofs.v) ----
+   Vocabulary:
+     next_is_jsight jsc enum s x1 l   the next lexeme l of the current scanner is a Keyword whose
+                                      text is JSIGHT (x1 = the scanner after it)
+     init_state root content          the scan of the project starts: root file, empty scanner stack
+     included_from root f tr          tr is the chain by which f is included from root, the direct
+                                      includer first, the root last (props/C02.v) *)
+From JV.proofs Require Import CoreMoreProofs.
+
+(* A JSIGHT keyword read in ANY reached state whose scanner stack is non-empty -- first directive of
+   the included file or not, before or after a nested INCLUDE of that file was entered and left --
+   ends the whole scan with 'not allowed in included file' at that keyword, in that file, with its
+   include trace (for every fuel beyond the iterations made; the directive read before it must
+   find its place, otherwise its diagnostic comes first: jsight_in_include_rejected); the run goes
+   no further.  The test is on the stack itself.  Example: CoreMoreProofs.ex_jsight_after_nested_include. *)
+Theorem jsight_in_included_file : forall jsc_len enum_len files banned root content s x1 l,
+  scan_reach jsc_len enum_len files banned (init_state root content) s ->
+  cs_stack s <> [] -> next_is_jsight jsc_len enum_len s x1 l ->
+  (exists s1, flush_cur (upd_sc s x1) = COk s1) ->
+  (exists n, forall fuel, (n < fuel)%nat ->
+     scan_project jsc_len enum_len files banned fuel (init_state root content) =
+     CErr (include_error s l CEJsightInInclude)) /\
+  (forall s', scan_reach jsc_len enum_len files banned (init_state root content) s' ->
+              scan_reach jsc_len enum_len files banned s' s).
+Proof. exact jsight_in_included_file_lemma. Qed.
+Print Assumptions jsight_in_included_file.
+
+(* push on entering a file, pop on leaving it: from a state s_in whose stack is (x, at) :: st (the
+   file entered by the INCLUDE at offset `at` of the file x reads), every later state either still
+   has that stack as a suffix of its own (so its stack is non-empty: the scan is inside), or comes
+   after the state s_ret in which the file was left -- and there the scanner is x again and the
+   stack is st, exactly as at the INCLUDE.  Example: CoreMoreProofs.ex_two_includes_balanced. *)
+Theorem include_leave_restores : forall jsc_len enum_len files banned s_in s x at_ st,
+  cs_stack s_in = (x, at_) :: st -> scan_reach jsc_len enum_len files banned s_in s ->
+  (exists pre, cs_stack s = pre ++ (x, at_) :: st) \/
+  (exists s_ret, scan_reach jsc_len enum_len files banned s_in s_ret /\
+                 scan_reach jsc_len enum_len files banned s_ret s /\ cs_sc s_ret = x /\ cs_stack s_ret = st).
+Proof. exact include_leave_restores_lemma. Qed.
+Print Assumptions include_leave_restores.
+
+(* the scan ends with the stack it started with when it starts at the root: empty.  (The model's
+   stack holds the SUSPENDED scanners; Go's Stack also keeps the entry of the file being read.) *)
+Theorem scan_ends_with_empty_stack : forall jsc_len enum_len files banned fuel s s',
+  scan_project jsc_len enum_len files banned fuel s = COk s' -> cs_stack s' = [].
+Proof. exact scan_ends_with_empty_stack_lemma. Qed.
+Print Assumptions scan_ends_with_empty_stack.
+
+(* an INCLUDE read under the empty stack -- every INCLUDE of the main file: the stack is empty again
+   each time the main file is resumed (include_leave_restores with st = []) -- is never refused as
+   a recursion: a main file may include any number of different files *)
+Theorem include_under_empty_stack_no_recursion : forall jsc_len enum_len files banned s l e,
+  cs_stack s = [] -> process_include jsc_len enum_len files banned s l = CErr e ->
+  ce_kind e <> CEIncludeRecursion.
+Proof. exact include_under_empty_stack_lemma. Qed.
+Print Assumptions include_under_empty_stack_no_recursion.
+
+(* under the empty stack it is the root file that is being read *)
+Theorem empty_stack_reads_root : forall jsc_len enum_len files banned root content s,
+  scan_reach jsc_len enum_len files banned (init_state root content) s ->
+  cs_stack s = [] -> sc_file (cs_sc s) = root.
+Proof. exact empty_stack_reads_root_lemma. Qed.
+Print Assumptions empty_stack_reads_root.
